@@ -31,12 +31,39 @@ type Field struct {
 	T        *Shape `json:"t"`
 }
 
-// Lit is a default value literal in a tag: K = "int" | "str" | "bool".
+// Lit is a default value literal in a tag: K = "int" | "str" | "bool" | "float" (F: binary64 bits, hex; only values
+// whose shortest decimal text has a fraction, so that the tag parser reads a Float).
 type Lit struct {
 	K string `json:"k"`
 	I int64  `json:"i,omitempty"`
 	S string `json:"s,omitempty"`
 	B bool   `json:"b,omitempty"`
+	F string `json:"f,omitempty"`
+}
+
+// val is the value of the (scalar) shape base that equals the literal.
+func (l *Lit) val() *Val {
+	switch l.K {
+	case "int":
+		return &Val{I: strconv.FormatInt(l.I, 10)}
+	case "bool":
+		return &Val{B: l.B}
+	case "float":
+		return &Val{F: l.F}
+	default:
+		return &Val{S: []byte(l.S)}
+	}
+}
+
+// defaultVal: the value of the field's type that equals the declared default (behind a pointer for a pointer field).
+func (f *Field) defaultVal() *Val {
+	if f.TagValue == nil {
+		return nil
+	}
+	if f.T.K == "ptr" {
+		return &Val{L: []*Val{f.TagValue.val()}}
+	}
+	return f.TagValue.val()
 }
 
 // Val is a value of a shape.
@@ -96,6 +123,8 @@ func (l *Lit) text() string {
 			return "true"
 		}
 		return "false"
+	case "float":
+		return strconv.FormatFloat(math.Float64frombits(fbits(&Val{F: l.F})), 'f', -1, 64)
 	default:
 		return "'" + l.S + "'"
 	}
